@@ -71,7 +71,7 @@ class Harness:
         sim.dt = dt
         return sim
 
-    def call(self, sim, tmax, exact, events=None, conds=None, cap=CAP, script=None):
+    def call(self, sim, tmax, exact, events=None, conds=None, cap=CAP, script=None, via="raw"):
         """one reb_simulation_integrate; returns dict(pre, beats, post, ret, flags).
         events: {boundary index: set of 'user'|'err'|'sigint'|'empty'};  conds: callable(sim)->mask of F_ESC|F_ENC|F_COLL
         recomputed from the particle arrays at every heartbeat.
@@ -130,8 +130,28 @@ class Harness:
                 flags[-1][0] |= F_SIGINT
 
         sim.heartbeat = hb
-        sim.exact_finish_time = exact
-        ret = clib.reb_simulation_integrate(ctypes.byref(sim), ctypes.c_double(tmax))
+        raised = None
+        if via == "raw":
+            sim.exact_finish_time = exact
+            ret = clib.reb_simulation_integrate(ctypes.byref(sim), ctypes.c_double(tmax))
+        else:
+            # the Python spellings of the same entry point (the exception is part of the contract, checked by the caller)
+            try:
+                if via == "py_kw":
+                    sim.integrate(tmax=tmax, exact_finish_time=exact)
+                elif via == "py_pos":
+                    sim.integrate(tmax, exact)
+                elif via == "py_default":
+                    assert exact == 1
+                    sim.integrate(tmax)
+                else:
+                    raise ValueError(via)
+            except (AssertionError, ValueError):
+                raise
+            except BaseException as e:
+                raised = type(e).__name__
+            sigint.value = 0
+            ret = sim._status
         post = (sim.t, sim.dt, sim.dt_last_done, sim._status, sim.steps_done)
         # drain messages so that a waiting error does not leak into the next call
         try:
@@ -141,7 +161,7 @@ class Harness:
         return dict(pre=pre, beats=beats, post=post, ret=ret, flags=flags, capped=state["capped"], tmax=tmax, exact=exact,
                     n_odes=(sim._N_odes - (1 if (BS_USER_ODES[0] and bool(sim.ri_bs._nbody_ode)) else 0)),
                     n_user_odes=(sim._N_odes - (1 if bool(sim.ri_bs._nbody_ode) else 0)),
-                    dt_in=(dtins if script is not None else None))
+                    dt_in=(dtins if script is not None else None), raised=raised, via=via)
 
 
 def model_line(kind, rec, is_bs=False, n_odes=0, fuel=None):
@@ -1864,6 +1884,445 @@ def run(c):
     for k in DIM_NAMES:
         if dims.get(k, 0) == 0:
             c.corr_break("dimension %s not covered%s" % (k, (" (" + dim_errors[k] + ")") if k in dim_errors else ""))
+
+    # ------------------------------------------------------------------ Y: pairwise conjunctions of the configuration factors
+    # Explicit factors with finite value sets; cases come from a greedy all-pairs covering array (deterministic, independent of VERIF_SEED);
+    # quick runs the slice  index % 2 == seed % 2, thorough the whole array plus the full factorial integ x exact x event x dir (3-way and more
+    # for the factors closest to the state machine).  Binary constraints = combinations the code rejects or that have no meaning, listed below.
+    c.log("section pairwise")
+    PF = {
+        "integ": list(REAL),
+        "dtsign": ["+", "-"],
+        "dir": ["fwd", "bwd"],
+        "exact": [0, 1],
+        "pattern": ["single", "split", "outputs", "reversal"],
+        "target": ["on", "off", "ulp", "short"],
+        "safe": [1, 0],
+        "roles": ["plain", "testp", "var"],
+        "edit": ["none", "dt", "particle", "add", "sync"],
+        "restore": ["none", "copy", "pickle", "file"],
+        "callbacks": ["none", "prepost", "forces", "all"],
+        "event": ["none", "user@0", "user@mid", "user@last", "err@mid", "err@last", "sigint@mid", "empty@mid", "empty@last", "status4@mid"],
+        "after": ["nothing", "same_target", "further", "reversed"],
+        "entry": ["raw", "py_kw", "py_pos", "py_default"],
+        "archive": ["none", "step", "interval"],
+    }
+    PNAMES = list(PF)
+    SAFE_INTEGS = ("whfast", "saba", "eos", "mercurius")
+    VAR_INTEGS = ("whfast", "ias15", "leapfrog")
+
+    def excluded(f, a, g, b):
+        """binary constraints (f,a) x (g,b) -> reason or None"""
+        v = {f: a, g: b}
+        it = v.get("integ")
+        if it == "trace" and (v.get("dir") == "bwd" or v.get("pattern") == "reversal" or v.get("after") == "reversed"):
+            return "TRACE backwards is unsupported (F10)"
+        if v.get("safe") == 0 and it is not None and it not in SAFE_INTEGS:
+            return "integrator has no safe_mode"
+        if v.get("roles") == "var" and it is not None and it not in VAR_INTEGS:
+            return "variational equations only for WHFast / IAS15 / LEAPFROG"
+        if v.get("roles") == "testp" and it in ("none", "sei"):
+            return "NONE / SEI scenes have no active-vs-test distinction"
+        if str(v.get("event", "")).endswith("@last") and v.get("exact") == 0:
+            return "no shortened last step without exact finishing"
+        if v.get("entry") == "py_default" and v.get("exact") == 0:
+            return "the omitted argument means exact_finish_time = 1"
+        if v.get("edit") == "add" and v.get("roles") == "var":
+            return "adding real particles after variational ones breaks the particle layout (refused by add)"
+        if v.get("roles") == "var" and str(v.get("event", "")).startswith("empty"):
+            return "remove_all_particles leaves var_config entries pointing at removed particles (undefined)"
+        if v.get("roles") == "var" and v.get("restore") in ("pickle", "file", "copy") and it == "leapfrog":
+            return None
+        return None
+
+    def valid(case):
+        for i, f in enumerate(PNAMES):
+            for g in PNAMES[i + 1:]:
+                if excluded(f, case[f], g, case[g]):
+                    return False
+        return True
+
+    all_pairs, excl_pairs = set(), {}
+    for i, f in enumerate(PNAMES):
+        for g in PNAMES[i + 1:]:
+            for a in PF[f]:
+                for b in PF[g]:
+                    r_ = excluded(f, a, g, b)
+                    if r_:
+                        excl_pairs[(f, a, g, b)] = r_
+                    else:
+                        all_pairs.add((f, a, g, b))
+
+    def pairs_of(case):
+        return {(f, case[f], g, case[g]) for i, f in enumerate(PNAMES) for g in PNAMES[i + 1:]}
+
+    # greedy all-pairs (fixed seed: the array is the same in every run; only the quick slice rotates)
+    grng = SplitMix(20250930)
+    uncovered = set(all_pairs)
+    array = []
+    while uncovered and len(array) < 600:
+        best, bestn = None, -1
+        # seed the candidate with an uncovered pair so that progress is guaranteed
+        seedp = sorted(uncovered, key=str)[grng.next() % len(uncovered)]
+        for _ in range(60):
+            cand = {f: grng.choice(PF[f]) for f in PNAMES}
+            cand[seedp[0]] = seedp[1]; cand[seedp[2]] = seedp[3]
+            if not valid(cand):
+                continue
+            n_ = len(pairs_of(cand) & uncovered)
+            if n_ > bestn:
+                best, bestn = cand, n_
+        if best is None:
+            # the seed pair cannot be completed to a valid case with random values: try systematically harder
+            for _ in range(2000):
+                cand = {f: grng.choice(PF[f]) for f in PNAMES}
+                cand[seedp[0]] = seedp[1]; cand[seedp[2]] = seedp[3]
+                if valid(cand):
+                    best = cand
+                    break
+            if best is None:
+                excl_pairs[seedp] = "no valid completion (ternary interaction of the constraints)"
+                all_pairs.discard(seedp); uncovered.discard(seedp)
+                continue
+        array.append(best)
+        uncovered -= pairs_of(best)
+    if thorough:
+        todo = list(array)
+        for it in PF["integ"]:
+            for ex in PF["exact"]:
+                for ev in PF["event"]:
+                    for dr in PF["dir"]:
+                        for _ in range(20):
+                            cand = {f: grng.choice(PF[f]) for f in PNAMES}
+                            cand.update(integ=it, exact=ex, event=ev, dir=dr)
+                            if valid(cand):
+                                todo.append(cand)
+                                break
+    else:
+        todo = [cs for i, cs in enumerate(array) if i % 2 == c.seed % 2]
+
+    pstat = {"array_cases": len(array), "run": 0, "errors": {}, "calls": 0}
+    seen_pairs = set()
+    entry_used = set()
+
+    def run_case(case, idx):
+        rng = SplitMix(1000003 * (idx + 1) + 17)          # the case determines everything (seed-independent)
+        integ = case["integ"]
+        sgn = 1.0 if case["dtsign"] == "+" else -1.0
+        dirn = 1.0 if case["dir"] == "fwd" else -1.0
+        unit = 0.05
+        dt = sgn * unit
+        fn_archive = None
+        if integ in ("none", "sei"):
+            sim = H.make_sim(integ, 0.0, dt, rng)
+        else:
+            nt = 2 if case["roles"] == "testp" else 0
+            sim = planets(integ, rng, dt, n_test=nt, n_active=(3 if nt else None))
+        if case["roles"] == "var":
+            var = sim.add_variation()
+            var.particles[1].x = 1.0; var.particles[2].vy = 0.5
+        if integ in SAFE_INTEGS:
+            getattr(sim, "ri_" + integ).safe_mode = case["safe"]
+
+        def install(sim):
+            if case["callbacks"] in ("prepost", "all"):
+                def pre(sp): pass
+                def post(sp):
+                    if sp.contents.N > 1:
+                        sp.contents.particles[1].vz += 1e-13
+                sim.pre_timestep_modifications = pre
+                sim.post_timestep_modifications = post
+            if case["callbacks"] in ("forces", "all"):
+                def af(sp): pass
+                sim.additional_forces = af
+            if case["archive"] != "none":
+                fnA = os.path.join(d, "c08_pair_%d_%d.bin" % (idx, rng.next() % 10 ** 9))
+                if case["archive"] == "step":
+                    sim.save_to_file(fnA, step=2, delete_file=True)
+                else:
+                    sim.save_to_file(fnA, interval=0.13, delete_file=True)
+                return fnA
+            return None
+        fn_archive = install(sim)
+        kind_is_adaptive = KIND[integ] == "adaptive"
+
+        def one(tmax, exact, via="raw", events=None, conds=None, tag=""):
+            pre_dt = sim.dt
+            rec = H.call(sim, tmax, exact, events=events, conds=conds, via=via)
+            pstat["calls"] += 1
+            entry_used.add("Simulation.integrate[%s]" % via if via != "raw" else "reb_simulation_integrate")
+            record(integ, rec, "pair:" + tag, is_bs=(integ == "bs"))
+            if rec["ret"] == 0:
+                check_contract(c, integ, rec, abs(pre_dt), fails, worst)
+            k, st = first_firing(rec, is_bs=(integ == "bs"))
+            want = st if st is not None else 0
+            if rec["ret"] != want or (k is not None and len(rec["beats"]) != k + 1):
+                fails.append(("status-first-boundary", "pairwise case: returned status %s, expected %s (first firing boundary %s, heartbeats %d)"
+                              % (rec["ret"], want, k, len(rec["beats"])), dict(case=case, call=tag, tmax=tmax, exact_finish_time=exact)))
+            if exact == 1 and rec["ret"] != 0:
+                check_dt_restored_on_exit(integ, rec, fails, gstats, "pair:" + tag)
+            if via != "raw":
+                okexc = rec["raised"] == PY_EXC.get(rec["ret"]) or (rec["ret"] == 1 and rec["raised"] == "RuntimeError")
+                if not okexc:
+                    fails.append(("python-exception", "pairwise case: Simulation.integrate (%s) raised %s for status %s" % (via, rec["raised"], rec["ret"]),
+                                  dict(case=case, call=tag)))
+            return rec
+
+        # warm-up call (so that edits / restores happen mid-run), then the edit, then the restore
+        one(dirn * 0.23, 1, tag="warmup")
+        ed = case["edit"]
+        if ed == "dt":
+            sim.dt = sim.dt * 0.7
+        elif ed == "particle" and sim.N > 1:
+            sim.particles[1].vy += 1e-6
+        elif ed == "add":
+            sim.add(m=1e-7, a=6.0) if integ not in ("none", "sei") else sim.add(m=0.0, x=3.0, vy=0.1)
+        elif ed == "sync":
+            sim.synchronize(); entry_used.add("Simulation.synchronize")
+        rs = case["restore"]
+        if rs != "none":
+            if rs == "copy":
+                sim2 = sim.copy()
+            elif rs == "pickle":
+                sim2 = pickle.loads(pickle.dumps(sim))
+            else:
+                fnR = os.path.join(d, "c08_pairR_%d.bin" % idx)
+                sim.save_to_file(fnR, delete_file=True)
+                sim2 = rebound.Simulation(fnR)
+            sim = sim2
+            fn_archive = install(sim)
+        unit = abs(sim.dt) if not kind_is_adaptive else 0.05
+        base = sim.t
+        off = {"on": 4.0, "off": 4.37, "ulp": 4.0, "short": 0.4}[case["target"]] * unit
+        T1 = base + dirn * off
+        if case["target"] == "ulp":
+            T1 = math.nextafter(T1, dirn * math.inf)
+        pat = case["pattern"]
+        if pat == "single":
+            targets = [T1]
+        elif pat == "split":
+            targets = [base + (T1 - base) * 0.31, base + (T1 - base) * 0.64, T1]
+        elif pat == "outputs":
+            targets = [base + (T1 - base) * j for j in (1, 2, 3, 4)]
+        else:
+            targets = [T1, base, base + (T1 - base) * 0.5]
+        ev = case["event"]
+        for j, tg in enumerate(targets):
+            events, conds = None, None
+            if j == len(targets) - 1 and ev != "none":
+                what, where = ev.split("@")
+                kb = 0 if where == "0" else (1 if (kind_is_adaptive or case["target"] == "short") else 2)
+                if what == "status4":
+                    st_ = {"n": 0}
+
+                    def conds(q, st_=st_, kb=kb):
+                        st_["n"] += 1
+                        if st_["n"] - 1 == kb:
+                            q._status = 4
+                            return F_ESC
+                        return 0
+                elif where == "last":
+                    events = {"last": {what}}
+                else:
+                    events = {kb: {what}}
+            rec = one(tg, case["exact"], via=case["entry"], events=events, conds=conds, tag="%s%d" % (pat, j))
+            H.sigint.value = 0
+        af = case["after"]
+        if af != "nothing" and sim.N > 0:
+            tg2 = {"same_target": targets[-1], "further": targets[-1] + dirn * 2.6 * unit, "reversed": base - dirn * 1.3 * unit}[af]
+            one(tg2, case["exact"], via=case["entry"], tag="after:" + af)
+        if fn_archive is not None and os.path.exists(fn_archive):
+            sa = rebound.Simulationarchive(fn_archive)
+            if len(sa) < 1:
+                fails.append(("archive-hook", "integrate with an archive attached left an unreadable archive", dict(case=case)))
+            if os.path.exists(fn_archive):
+                os.remove(fn_archive)
+
+    for idx, case in enumerate(todo):
+        try:
+            run_case(case, array.index(case) if case in array else 10000 + idx)
+            seen_pairs |= pairs_of(case)
+            pstat["run"] += 1
+            c.count(("pair", case["integ"], case["event"], case["pattern"], case["entry"]))
+        except Exception as e:
+            pstat["errors"][json.dumps(case, sort_keys=True)[:300]] = "%s: %s" % (type(e).__name__, str(e)[:160])
+    covered = len(seen_pairs & all_pairs)
+    missing_pairs = sorted(all_pairs - seen_pairs, key=str)
+    c.cov["pairs"] = {"covered": covered, "total": len(all_pairs), "excluded": len(excl_pairs),
+                      "factors": {f: len(PF[f]) for f in PNAMES}, "array_cases": len(array), "cases_run": pstat["run"], "calls": pstat["calls"],
+                      "excluded_reasons": sorted(set(excl_pairs.values())), "missing": [list(m) for m in missing_pairs[:20]],
+                      "errors": dict(list(pstat["errors"].items())[:8])}
+    if thorough and missing_pairs:
+        c.corr_break("pairwise coverage incomplete: %d of %d applicable pairs never generated; first: %s" % (len(missing_pairs), len(all_pairs), list(missing_pairs[0])))
+    if pstat["errors"]:
+        c.corr_break("%d pairwise cases could not be executed; first: %s" % (len(pstat["errors"]), list(pstat["errors"].items())[0]))
+
+    # ------------------------------------------------------------------ Z: public entry points, each exercised with an oracle
+    c.log("section entry points")
+    ep_c, ep_py = extract_c08.entry_points(REPO)
+    used = set(entry_used)
+    aux_lines, aux_expect, aux_meta = [], [], []
+    # -- reb_run_heartbeat called directly: the exit conditions computed by the model (heartbeatFlags) vs the real routine
+    H.clib.reb_run_heartbeat.argtypes = [ctypes.c_void_p]
+    nHB = 400 if thorough else 80
+    hb_stats = {"cases": 0, "escape": 0, "encounter": 0, "user": 0, "exact_ties": 0, "with_variational": 0}
+    for rep in range(nHB):
+        rng = c.rng.fork()
+        n = rng.randint(0, 6)
+        sim = rebound.Simulation()
+        pts = []
+        for i in range(n):
+            p = (rng.uniform(-2, 2), rng.uniform(-2, 2), rng.choice([0.0, rng.uniform(-1, 1)]))
+            pts.append(p)
+            sim.add(m=(1.0 if i == 0 else 0.0), x=p[0], y=p[1], z=p[2])
+        nvar = 0
+        if n >= 1 and rng.chance(0.25):
+            var = sim.add_variation()
+            var.particles[0].x = 50.0        # variational data far outside: must not count
+            nvar = 1
+            hb_stats["with_variational"] += 1
+        r2 = [x * x + y * y + z * z for x, y, z in pts]
+        d2 = [((pts[i][0] - pts[j][0]) * (pts[i][0] - pts[j][0]) + (pts[i][1] - pts[j][1]) * (pts[i][1] - pts[j][1])) + (pts[i][2] - pts[j][2]) * (pts[i][2] - pts[j][2])
+              for i in range(n) for j in range(i)]
+        maxd = rng.choice([0.0, rng.uniform(0.5, 3.0)] + ([ulp_step(math.sqrt(max(r2)), rng.randint(-2, 2))] if r2 else []))
+        mind = rng.choice([0.0, rng.uniform(0.1, 1.5)] + ([ulp_step(math.sqrt(min(d2)), rng.randint(-2, 2))] if d2 else []))
+        if r2 and maxd * maxd == max(r2) or d2 and mind * mind == min(d2):
+            hb_stats["exact_ties"] += 1
+        user = rng.chance(0.2)
+        st0 = rng.choice([-1, -2, -1])
+        sim.exit_max_distance = maxd
+        sim.exit_min_distance = mind
+        if user:
+            def hbu(sp):
+                sp.contents.stop()
+            sim.heartbeat = hbu
+        sim._status = st0
+        H.clib.reb_run_heartbeat(ctypes.byref(sim))
+        got = sim._status
+        aux_lines.append("HB %d %d %s %s %d " % (st0, 1 if user else 0, d2h(maxd), d2h(mind), n) + " ".join(d2h(v) for p in pts for v in p))
+        aux_expect.append(str(got))
+        aux_meta.append(("reb_run_heartbeat", dict(n=n, maxd=maxd, mind=mind, user=user, status0=st0, particles=pts)))
+        hb_stats["cases"] += 1
+        hb_stats["escape"] += got == 4; hb_stats["encounter"] += got == 3; hb_stats["user"] += got == 5
+        c.count(("entry", "reb_run_heartbeat", n, got))
+    used |= {"reb_run_heartbeat", "Simulation.exit_max_distance", "Simulation.exit_min_distance", "Simulation.stop", "reb_simulation_stop"}
+    c.cov["heartbeat_direct_tie"] = hb_stats
+    # -- reb_check_exit called directly on crafted states (also the SINGLE_STEP countdown and PAUSED + SIGINT, which need no second thread here)
+    H.clib.reb_check_exit.argtypes = [ctypes.c_void_p, ctypes.c_double, ctypes.POINTER(ctypes.c_double)]
+    H.clib.reb_check_exit.restype = ctypes.c_int
+    nCE = 1500 if thorough else 300
+    ce_stats = {"cases": 0, "ret_histogram": {}}
+    for rep in range(nCE):
+        rng = c.rng.fork()
+        t0, dt, tmax, fam = gen_triple(rng)
+        if rng.chance(0.15):
+            tmax = rng.choice([math.inf, -math.inf])
+        status = rng.choice([-1, -1, -2, -2, -10, -11, -37, -60, 1, 4, 5, 7, 0, -3, -4])
+        exact = rng.choice([0, 1, 1, 2])
+        dld = rng.choice([0.0, dt, dt * 0.5, -dt])
+        lf0 = rng.choice([dt, dt * 3, 0.125])
+        npart = rng.choice([1, 1, 1, 0])
+        err = rng.chance(0.15)
+        sig = 1 if status in (-3, -4) else rng.choice([0, 0, 1])      # PAUSED / SCREENSHOT without SIGINT would wait for ever
+        sim = rebound.Simulation()
+        sim.integrator = rng.choice(["whfast", "leapfrog", "ias15", "bs", "none"])
+        if npart:
+            sim.add(m=1.0)
+        sim.t = t0; sim.dt = dt; sim.dt_last_done = dld; sim._status = status; sim.exact_finish_time = exact
+        if err:
+            H.clib.reb_simulation_error(ctypes.byref(sim), b"C08 injected error")
+        H.sigint.value = sig
+        lf = ctypes.c_double(lf0)
+        ret = H.clib.reb_check_exit(ctypes.byref(sim), ctypes.c_double(tmax), ctypes.byref(lf))
+        H.sigint.value = 0
+        try:
+            sim.process_messages()
+        except RuntimeError:
+            pass
+        mask = (F_ERR if err else 0) | (F_SIGINT if sig else 0)
+        aux_lines.append("CE %s %s %s %d %d %s %s %s %d:%d 0 %s" % (d2h(t0), d2h(dt), d2h(dld), status, exact, d2h(tmax), "1" if tmax == math.inf else "0",
+                                                                   d2h(lf0), mask, npart, "1" if sim.integrator == "bs" else "0"))
+        aux_expect.append("ret %d %s %s" % (ret, d2h(sim.dt), d2h(lf.value)))
+        aux_meta.append(("reb_check_exit", dict(t=t0, dt=dt, dt_last_done=dld, status=status, exact_finish_time=exact, tmax=tmax, last_full_dt=lf0,
+                                                N=npart, error_waiting=err, sigint=sig, returned=ret, dt_after=sim.dt, last_full_after=lf.value)))
+        ce_stats["cases"] += 1
+        ce_stats["ret_histogram"][str(ret)] = ce_stats["ret_histogram"].get(str(ret), 0) + 1
+        c.count(("entry", "reb_check_exit", status, exact, ret))
+    used |= {"reb_check_exit", "reb_sigint"}
+    c.cov["check_exit_direct_tie"] = ce_stats
+    # -- reb_simulation_step / steps and their Python spellings: time bookkeeping of one step without the loop
+    step_stats = {"steps": 0}
+    for integ in FIXED:
+        rng = c.rng.fork()
+        dt = rng.choice([0.05, -0.1])
+        sim = H.make_sim(integ, rng.uniform(-2, 2), dt, rng)
+        for form in ("Simulation.step", "reb_simulation_step", "Simulation.steps", "reb_simulation_steps"):
+            nst = 1 if form.endswith("step") else 3
+            t_b, st_b, sd_b = sim.t, sim._status, sim.steps_done
+            if form == "Simulation.step":
+                sim.step()
+            elif form == "reb_simulation_step":
+                H.clib.reb_simulation_step(ctypes.byref(sim))
+            elif form == "Simulation.steps":
+                sim.steps(nst)
+            else:
+                H.clib.reb_simulation_steps(ctypes.byref(sim), ctypes.c_uint(nst))
+            want = t_b
+            for _ in range(nst):
+                want = (want + dt / 2.) + dt / 2. if KIND[integ] == "halves" else want + dt
+            okst = d2h(sim.t) == d2h(want) and d2h(sim.dt) == d2h(dt) and sim.steps_done == sd_b + nst and sim._status == st_b and \
+                (KIND[integ] == "janus" or d2h(sim.dt_last_done) == d2h(dt))
+            step_stats["steps"] += nst
+            c.count(("entry", form, integ))
+            if not okst:
+                fails.append(("step-bookkeeping", "%s: t / dt / dt_last_done / steps_done / status after the call are not those of %d step(s)" % (form, nst),
+                              dict(integrator=integ, t_before=t_b, dt=dt, t_after=sim.t, expected_t=want, dt_after=sim.dt, dt_last_done=sim.dt_last_done,
+                                   steps_done=sim.steps_done - sd_b, status_before=st_b, status_after=sim._status)))
+            used.add(form)
+    c.cov["step_entry_points"] = step_stats
+    # -- the halting resolver called directly, and selected through the Python attribute
+    class RebCollision(ctypes.Structure):
+        _fields_ = [("p1", ctypes.c_int), ("p2", ctypes.c_int), ("gb", ctypes.c_double * 6), ("ri", ctypes.c_int)]
+    rng = c.rng.fork()
+    sim = H.make_sim("leapfrog", 1.25, 0.1, rng)
+    sim._status = -1
+    H.clib.reb_collision_resolve_halt.argtypes = [ctypes.c_void_p, RebCollision]
+    H.clib.reb_collision_resolve_halt.restype = ctypes.c_int
+    rv_ = H.clib.reb_collision_resolve_halt(ctypes.byref(sim), RebCollision(p1=0, p2=1))
+    if rv_ != 0 or sim._status != 7 or sim.particles[0].last_collision != 1.25 or sim.particles[1].last_collision != 1.25:
+        fails.append(("halt-resolver", "reb_collision_resolve_halt does not set COLLISION / last_collision / return 0", dict(ret=rv_, status=sim._status)))
+    used.add("reb_collision_resolve_halt")
+    sim2 = H.make_sim("leapfrog", 0.0, 0.05, rng, physics="free")
+    sim2.add(m=0.0, x=0.0, r=0.2); sim2.add(m=0.0, x=-0.6, vx=1.0, r=0.2)
+    sim2.collision = "direct"
+    sim2.collision_resolve = "halt"
+    got_exc = None
+    try:
+        sim2.integrate(2.0, exact_finish_time=0)
+    except Exception as e_:
+        got_exc = type(e_).__name__
+    if got_exc != "Collision" or sim2._status != 7 or sim2.exact_finish_time != 0:
+        fails.append(("halt-resolver", "collision_resolve='halt' through the Python attribute did not end integrate with Collision",
+                      dict(raised=got_exc, status=sim2._status, exact_finish_time_member=sim2.exact_finish_time)))
+    used |= {"Simulation.collision_resolve", "Simulation.integrate", "Simulation.exact_finish_time", "reb_simulation_integrate"}
+    c.count(("entry", "halt"))
+    # run the direct ties through the driver
+    got_aux = run_driver(exe, aux_lines) if aux_lines else []
+    naux = 0
+    for g_, e_, (nm_, det_) in zip(got_aux, aux_expect, aux_meta):
+        gg = g_.split()
+        ok_ = (g_.strip() == e_) if nm_ == "reb_run_heartbeat" else (gg[:1] == ["ret"] and " ".join(["ret", gg[1], gg[2], gg[3]]) == e_)
+        if not ok_:
+            naux += 1
+            if naux == 1:
+                c.corr_break("%s called directly differs from the model: model '%s', implementation '%s'" % (nm_, g_.strip()[:80], e_), det_)
+    c.cov["entry_points"] = {"c": ep_c, "python": ep_py, "exercised": sorted(used & (set(ep_c) | set(ep_py))),
+                             "direct_tie_lines": len(aux_lines), "direct_tie_disagreements": naux}
+    if len(ep_c) < 8 or len(ep_py) < 8:
+        c.corr_break("entry-point extraction found only %d C / %d Python entry points (expected >= 8 / 8)" % (len(ep_c), len(ep_py)))
+    not_used = sorted((set(ep_c) | set(ep_py)) - used)
+    if not_used:
+        c.corr_break("public entry points of the integrate() mechanism not exercised in this run: " + ", ".join(not_used))
 
     # ------------------------------------------------------------------ model vs implementation
     c.log("running %d integrate calls through drv_c08" % len(lines))
